@@ -194,6 +194,30 @@ SetCoreSize(p, l) ==
     /\ UNCHANGED <<cen, rot, chir, fv, ecache>>
     /\ Log
 
+\* moving the live core through ITS centroid setter: the rounded shape follows (it has no centroid setter of its own)
+SetCoreCentroid(k) ==
+    /\ IsSphero
+    /\ cen' = k
+    /\ stale' = Apply("translate")
+    /\ ret' = Ok("corecentroid", <<k>>)
+    /\ UNCHANGED <<s, rot, chir, rr, fv, ecache>>
+    /\ Log
+
+\* every question the library answers, put to the shape or to its live core between two mutations: the abstract state does not
+\* change (QueryPure), and whatever the implementation memoises while answering belongs to the geometry of THIS state - the
+\* next mutation has to refresh or drop it (Coherent is evaluated by the replayer on the shape and on the core after every step)
+Read(who) ==
+    /\ who = "core" => IsSphero
+    /\ ret' = Ok("read", <<who>>)
+    /\ UNCHANGED <<s, cen, rot, chir, rr, fv, ecache, stale>>
+    /\ Log
+
+\* ReachByHistory (used by the evaluators of C05, C11, C13, C14 through vh/history.py): the behaviour
+\*   Init(scale g, elsewhere) ; Read("shape") ; Read("core") ; SetSize(p, 1/g) | (SetCoreSize(p, 1/g) ; SetRadius(1/g)) ;
+\*   Read("shape") ; Read("core") ; SetCentroid("target") | SetCoreCentroid("target")
+\* ends in a state whose St equals that of a shape constructed at the target directly (SetterSimilar + the translation law),
+\* so every exact value computed for the constructed shape is also the required answer of the shape reached this way.
+
 \* obj.centroid = a malformed value (two or four numbers, a None entry, a matrix): whatever exception it raises - or if the
 \* class has no centroid setter - the shape is left as it was.  (Acceptance is not modelled: the harness stops such a history.)
 SetCentroidBad(b, alias) ==
@@ -271,6 +295,8 @@ Next == \/ \E p \in SizeProps, l \in Lambdas : SetSize(p, l)
         \/ \E l \in Lambdas \cup {<<0, 1>>} : SetRadius(l)
         \/ \E p \in CoreSizeProps, l \in Lambdas : SetCoreSize(p, l)
         \/ SetRadiusNegative
+        \/ \E k \in {"origin", "target"} : SetCoreCentroid(k)
+        \/ \E who \in {"shape", "core"} : Read(who)
         \/ \E p \in AxisProps, l \in Lambdas : SetAxis(p, l)
         \/ \E p \in AxisProps, b \in {"zero", "negative", "nan"} : SetAxisBad(p, b)
         \/ Diagonalize \/ SortFaces \/ MergeFaces \/ ReadEdges \/ ToHoomd
@@ -286,6 +312,6 @@ SetterSimilar == [][ret'.op = "set" /\ ret'.exc = "none" =>
 NearSetterSimilar == [][ret'.op = "setnear" => ret'.exc = "none" /\ [St' EXCEPT !.stale = {}] = [St EXCEPT !.stale = {}]]_vars
 BadCentreAtomic == [][ret'.op = "centroidbad" => St' = St]_vars
 BadTargetRefused == [][ret'.op = "setbad" => ret'.exc \in {"ValueError", "NotImplementedError", "RuntimeError"} /\ St' = St]_vars
-QueryPure == [][ret'.op = "to_hoomd" => [St' EXCEPT !.stale = {}] = [St EXCEPT !.stale = {}]]_vars
+QueryPure == [][ret'.op \in {"to_hoomd", "read"} => [St' EXCEPT !.stale = {}] = [St EXCEPT !.stale = {}]]_vars
 ViewSt == St
 =============================================================================
